@@ -57,14 +57,14 @@ COMMON_ASSUME = ['the Lean model is hand-written; it is tied to the Rust source 
 PROPS = {
     'C01': dict(
         extra_modules=['GraphrsModel.Props.Core'],
-        gens=[('store', 'general', 4000, 60000, 14)],
+        gens=[('store', 'general', 4000, 60000, 14), ('store', 'big', 300, 5000, 0)],
         spec_fields=[r'res', r'nodes', r'edges'],
         model_fields=[r'res', r'nodes', r'edges', r'snap\..*', r'poison', r'agree\.wf'],
         nontrivial=store_nontrivial, hist=store_hist, rule=STORE_RULE, assumptions=COMMON_ASSUME,
     ),
     'C02': dict(
         extra_modules=['GraphrsModel.Props.Core'],
-        gens=[('store', 'general', 3000, 40000, 12)],
+        gens=[('store', 'general', 3000, 40000, 12), ('store', 'big', 150, 3000, 0)],
         spec_fields=[r'nodes', r'edges', r'node', r'idx', r'byidx', r'hasnodes', r'ge', r'ges', r'efn', r'efns', r'ien',
                      r'iens', r'oen', r'oens', r'nb', r'sn', r'pn', r'son', r'smap', r'pmap', r'bfs', r'ehw'],
         model_fields=STORE_MODEL_ALL,
@@ -72,7 +72,7 @@ PROPS = {
     ),
     'C03': dict(
         extra_modules=['GraphrsModel.Props.Core', 'GraphrsModel.Props.C03Rows'],
-        gens=[('store', 'weights', 4000, 60000, 12)],
+        gens=[('store', 'weights', 4000, 60000, 12), ('store', 'big', 150, 3000, 0)],
         spec_fields=[r'travs', r'travp', r'edges'],
         model_fields=[r'travs', r'travp', r'edges', r'snap\.successors_vec', r'snap\.predecessors_vec', r'poison', r'agree\.wf'],
         nontrivial=store_nontrivial, hist=store_hist, rule=STORE_RULE + '; profile "weights": 55% repeated pairs, '
@@ -80,7 +80,7 @@ PROPS = {
     ),
     'C09': dict(
         extra_modules=['GraphrsModel.Props.C09Model', 'GraphrsModel.Props.C12Weighted'],
-        gens=[('store', 'degrees', 3000, 40000, 12)],
+        gens=[('store', 'degrees', 3000, 40000, 12), ('store', 'big', 150, 3000, 0)],
         spec_fields=[r'cnt', r'deg', r'indeg', r'outdeg', r'wdeg', r'windeg', r'woutdeg', r'degall', r'indegall',
                      r'outdegall', r'wdegall', r'windegall', r'woutdegall', r'dens:q', r'dc:q', r'mat'],
         model_fields=[r'cnt', r'deg', r'indeg', r'outdeg', r'wdeg', r'windeg', r'woutdeg', r'degall', r'indegall',
@@ -91,7 +91,7 @@ PROPS = {
     ),
     'C15': dict(
         extra_modules=['GraphrsModel.Props.Core'],
-        gens=[('store', 'general', 3000, 40000, 12)],
+        gens=[('store', 'general', 3000, 40000, 12), ('store', 'big', 150, 3000, 0)],
         spec_fields=[r'sub\d+', r'rev', r'setw', r'single'],
         model_fields=[r'sub\d+', r'rev', r'setw', r'single', r'edges', r'nodes', r'agree\.wfderived'],
         impl_checks=[('srcsame', '1')],
@@ -251,7 +251,7 @@ PROPS.update({
     ),
     'C13': dict(
         extra_modules=['GraphrsModel.Props.C13Model'],
-        gens=[('louv', 'random', 1500, 25000, 9), ('louv', 'ties', 500, 8000, 10)],
+        gens=[('louv', 'random', 1500, 25000, 9), ('louv', 'ties', 500, 8000, 10), ('louv', 'strand', 1500, 25000, 6)],
         spec_fields=[r'ok\.levels', r'ok\.nested', r'ok\.monotone', r'ok\.last'], model_fields=[r'build', r'parts'],
         nontrivial=lambda req, I: ',' in I.get('parts', ''),
         hist=lambda req, I: graph_hist(req, I) + ['levels.%d' % len(I.get('parts', '').split())],
